@@ -144,6 +144,25 @@ COMM_CALLS = {"Ord::min", "Ord::max", "f64::max", "f64::min", "u32::wrapping_add
 #   ('other', text)
 
 
+_NUM_TYPES = ("u8", "u16", "u32", "u64", "u128", "usize", "i8", "i16", "i32", "i64", "i128", "isize", "f32", "f64")
+_NUM_FROM = re.compile(r"(u8|u16|u32|u64|u128|usize|i8|i16|i32|i64|i128|isize|f32|f64)::from")
+
+
+def _small_value(e):
+    """expression whose value is < 256 by construction: x % C or x & C with a small constant C"""
+    if e[0] == "bin" and e[1] in ("Rem", "BitAnd"):
+        for c in (e[2], e[3]) if e[1] == "BitAnd" else (e[3],):
+            if c[0] == "const":
+                try:
+                    if 0 < int(str(c[1])) <= 256:
+                        return True
+                except ValueError:
+                    pass
+    if e[0] == "cast":
+        return _small_value(e[2])
+    return False
+
+
 def show(e):
     k = e[0]
     if k == "arg":
@@ -593,7 +612,11 @@ class Body:
         if k in ("ref", "rawptr"):
             return self.place_expr(rv["pl"], stack)
         if k == "bin":
-            return ("bin", rv["op"], self.operand_expr(rv["a"], stack), self.operand_expr(rv["b"], stack))
+            a_, b_ = self.operand_expr(rv["a"], stack), self.operand_expr(rv["b"], stack)
+            if rv["op"] in ("Shl", "Shr", "ShlUnchecked", "ShrUnchecked") and b_[0] == "cast" and _small_value(b_[2]):
+                # the type of a shift amount that is known to be small (x % 64, x & 63) carries no information
+                b_ = b_[2]
+            return ("bin", rv["op"], a_, b_)
         if k == "un":
             return ("un", rv["op"], self.operand_expr(rv["a"], stack))
         if k == "cast":
@@ -629,11 +652,30 @@ class Body:
         if fn is None:
             return ("call", "indirect", args)
         sn = self.facts.short(fn)
+        decl = t.get("decl") or ""
+        ga = t.get("gargs") or []
+        if len(args) == 1 and len(ga) == 2 and ga[0] in _NUM_TYPES + ("bool",) and ga[1] in _NUM_TYPES + ("bool",):
+            # lossless numeric conversions spelled with From / Into are `x as T`
+            if decl.endswith("convert::From::from"):
+                return ("cast", ga[0], args[0])
+            if decl.endswith("convert::Into::into"):
+                return ("cast", ga[1], args[0])
         if sn in TRANSPARENT_CALLS and args:
             return args[0]
         if sn.endswith("::index") or sn.endswith("::index_mut"):
             if len(args) == 2:
                 return self._mk_proj(args[0], (("[]", args[1]),))
+        m = _NUM_FROM.fullmatch(sn)
+        if m and len(args) == 1:
+            # `u64::from(x)`, `usize::from(x)`, `f64::from(x)` between numeric types are the lossless `x as T`
+            aty = None
+            a0 = t["args"][0]
+            if a0["k"] in ("copy", "move") and not a0["pl"]["p"]:
+                aty = self.locals[a0["pl"]["l"]]["ty"]
+            elif a0["k"] == "const":
+                aty = a0.get("ty")
+            if aty in _NUM_TYPES or aty == "bool":
+                return ("cast", m.group(1), args[0])
         return ("call", sn, args)
 
     # -- dominators / loops ------------------------------------------------------------------------
@@ -1514,16 +1556,21 @@ class FactsAnalysis:
     def _tracked_bool(self, n):
         """bool locals whose assignments are turned into facts: user variables (named in the debug info) and
         temporaries that are assigned a non-constant at least once (the `&&`/`||` flags).  Compiler-generated drop
-        flags (unnamed, only ever assigned constants) are noise and are left out."""
+        flags (unnamed, only ever assigned constants, initialised in the entry block) are noise and are left out."""
         cache = self.__dict__.setdefault("_tracked_cache", {})
         if n not in cache:
             b = self.b
             named = any((not d["pl"].get("p")) and d["pl"].get("l") == n for d in (b.dbg or []) if isinstance(d.get("pl"), dict))
             nonconst = False
+            in_entry = False
             for loc, kind, node in b.defs.get(n, []):
                 if kind != "assign" or node["rv"]["k"] != "use" or node["rv"]["op"]["k"] != "const":
                     nonconst = True
-            cache[n] = named or nonconst
+                if loc.bb == 0:
+                    in_entry = True
+            # a drop flag is initialised in the entry block; a constant-only temporary that is not (the result of
+            # `matches!(..)` or of a `match` with boolean arms) is a value the program computes
+            cache[n] = named or nonconst or not in_entry
         return cache[n]
 
     def _block_gens(self, bb, upto=None):
